@@ -7,6 +7,7 @@ import DateutilVerif.Proofs.FactoryLive
 import DateutilVerif.Proofs.FactorySingle
 import DateutilVerif.Proofs.FactoryRank
 import DateutilVerif.Proofs.FactoryTerm
+import DateutilVerif.Proofs.GettzResolve
 
 namespace C18
 open Fact
@@ -283,5 +284,202 @@ example :
     s.g.held.map (fun r => r.id) = [0, 1] := by decide
 
 example : (initSingleton [[.call 0], [.call 0]]).ths.length = 2 := by decide
+
+/-! ### Name resolution order of `gettz` (`GettzFunc.nocache`), for every environment
+
+`Gettz.resolve e name` mirrors `nocache` statement by statement over an abstract environment `e`
+(TZ variable, TZFILES, TZPATHS, `os.path.isfile`, the outcome of `tzfile(path)`, `time.tzname`, the
+vendored database, whether `tzstr` accepts a string).  The theorems state the decision logic outright. -/
+
+section Resolve
+open Gettz
+
+variable {e : Env}
+
+/-- no name, `''` or `':'` (after `TZ` has been substituted for a missing / empty name): the local
+zone — the unnamed loop over TZFILES; neither TZ strings, nor the vendored database, nor the
+search for a key are consulted -/
+theorem resolve_unnamed {name : Option String}
+    (h : effectiveName e name = none ∨ effectiveName e name = some "" ∨ effectiveName e name = some ":") :
+    resolve e name = localLoop e e.tzfiles := by
+  rcases h with h | h | h <;> simp [resolve, h]
+
+/-- `gettz()` / `gettz('')` read the TZ variable first: with `TZ` set to a non-empty value other
+than `:` they resolve exactly like `gettz(TZ)` -/
+theorem resolve_uses_TZ {v : String} (hv : e.tzVar = some v) (h1 : v ≠ "") :
+    resolve e none = resolve e (some v) ∧ resolve e (some "") = resolve e (some v) := by
+  have hne : v.isEmpty = false := by
+    cases hb : v.isEmpty
+    · rfl
+    · exact absurd (by simpa using hb) h1
+  constructor <;> simp [resolve, effectiveName, hv, hne]
+
+/-- the local zone is the first TZFILES entry that exists and loads; entries standing for no
+existing file, or for a file tzfile rejects with IOError/OSError/ValueError, are passed over -/
+theorem resolve_local_first_wins {pre post : List String} {fp p : String}
+    (hpre : ∀ q ∈ pre, LocalSkip e q) (hc : localCand e fp = some p) (hf : e.isfile p = true)
+    (hl : e.load p = .ok) : localLoop e (pre ++ fp :: post) = .ok (.file p) :=
+  localLoop_first_wins hpre hc hf hl
+
+/-- … and when no entry does: `tzlocal()` — the unnamed branch never yields `None`, a TZ string,
+the UTC constant or a vendored zone -/
+theorem resolve_local_fallback {l : List String} (h : ∀ q ∈ l, LocalSkip e q) : localLoop e l = .ok .localZone :=
+  localLoop_all_skipped h
+
+theorem resolve_local_results {l : List String} {r : Resolution} (h : localLoop e l = .ok r) :
+    r = .localZone ∨ ∃ p, r = .file p ∧ e.isfile p = true ∧ e.load p = .ok :=
+  localLoop_ok_cases h
+
+/-- a named request (anything else; one leading `:` is dropped) -/
+theorem resolve_named {name : Option String} {s : String} (h : effectiveName e name = some s)
+    (h1 : s ≠ "") (h2 : s ≠ ":") : resolve e name = resolveNamed e s := by
+  simp [resolve, h, h1, h2]
+
+/-- an absolute path is only ever that file: a loadable file gives `tzfile(path)`, anything that
+is not a regular file gives `None` — TZPATHS, the vendored database, TZ strings and tzname are not consulted -/
+theorem resolve_absolute {s : String} (ha : isabs (stripColon s) = true) :
+    (e.isfile (stripColon s) = true → e.load (stripColon s) = .ok → resolveNamed e s = .ok (.file (stripColon s))) ∧
+    (e.isfile (stripColon s) = false → resolveNamed e s = .ok .none) := by
+  constructor
+  · intro hf hl; simp [resolveNamed, ha, hf, hl]
+  · intro hf; simp [resolveNamed, ha, hf]
+
+/-- search-path priority: the first TZPATHS entry whose candidate (`join(path, name)`, or its
+spelling with `_` for spaces when that does not exist) loads wins — over every later entry, the
+vendored database, the TZ-string reading, the GMT/UTC constants and tzname; earlier entries that
+offer nothing, or only a file tzfile rejects with a handled exception, are passed over -/
+theorem resolve_search_path_wins {s p c : String} {pre post : List String}
+    (hrel : isabs (stripColon s) = false) (hpaths : e.tzpaths = pre ++ p :: post)
+    (hpre : ∀ q ∈ pre, SearchSkip e (stripColon s) q)
+    (hc : candidate e p (stripColon s) = some c) (hl : e.load c = .ok) :
+    resolveNamed e s = .ok (.file c) := by
+  simp [resolveNamed, hrel, hpaths, searchLoop_first_wins hpre hc hl]
+
+/-- the candidate of a search directory: the joined path when it is a file, else its underscore spelling -/
+theorem candidate_direct {path name : String} (h : e.isfile (join path name) = true) :
+    candidate e path name = some (join path name) := by simp [candidate, h]
+
+theorem candidate_underscore {path name : String} (h : e.isfile (join path name) = false)
+    (h2 : e.isfile (underscore (join path name)) = true) :
+    candidate e path name = some (underscore (join path name)) := by simp [candidate, h, h2]
+
+/-- when no search directory yields a loadable file, the fall-back chain decides -/
+theorem resolve_fallthrough {s : String} (hrel : isabs (stripColon s) = false)
+    (hall : ∀ q ∈ e.tzpaths, SearchSkip e (stripColon s) q) :
+    resolveNamed e s = .ok (fallback e (stripColon s)) := by
+  simp [resolveNamed, hrel, searchLoop_all_skipped hall]
+
+/-- the fall-back chain, in order: vendored database; else, for a name containing an ASCII digit,
+`tzstr` if it parses and `None` if it raises ValueError (never GMT/UTC/tzname); else the constant
+UTC for `GMT` / `UTC`; else `tzlocal()` for a name in `time.tzname`; else `None` -/
+theorem fallback_order (n : String) :
+    (e.vendored n = true → fallback e n = .vendored n) ∧
+    (e.vendored n = false → hasDigit n = true → e.tzstrOk n = true → fallback e n = .tzstr n) ∧
+    (e.vendored n = false → hasDigit n = true → e.tzstrOk n = false → fallback e n = .none) ∧
+    (e.vendored n = false → hasDigit n = false → (n = "GMT" ∨ n = "UTC") → fallback e n = .utc) ∧
+    (e.vendored n = false → hasDigit n = false → n ≠ "GMT" → n ≠ "UTC" → n ∈ e.tzname → fallback e n = .localZone) ∧
+    (e.vendored n = false → hasDigit n = false → n ≠ "GMT" → n ≠ "UTC" → n ∉ e.tzname → fallback e n = .none) := by
+  refine ⟨?_, ?_, ?_, ?_, ?_, ?_⟩ <;> intros <;> simp_all [fallback]
+
+/-- a name with a digit that is no loadable file under any search directory, is not in the vendored
+database and parses as a TZ string gives `tzstr(name)` -/
+theorem resolve_tzstr {name : Option String} {s : String} (h : effectiveName e name = some s)
+    (h1 : s ≠ "") (h2 : s ≠ ":") (hrel : isabs (stripColon s) = false)
+    (hall : ∀ q ∈ e.tzpaths, SearchSkip e (stripColon s) q) (hv : e.vendored (stripColon s) = false)
+    (hd : hasDigit (stripColon s) = true) (hok : e.tzstrOk (stripColon s) = true) :
+    resolve e name = .ok (.tzstr (stripColon s)) := by
+  rw [resolve_named h h1 h2, resolve_fallthrough hrel hall, (fallback_order (stripColon s)).2.1 hv hd hok]
+
+/-- `GMT` / `UTC` without a loadable file of that name and without a vendored entry give the constant `tz.UTC` -/
+theorem resolve_utc_constant {name : Option String} {s : String} (h : effectiveName e name = some s)
+    (h1 : s ≠ "") (h2 : s ≠ ":") (hn : stripColon s = "GMT" ∨ stripColon s = "UTC")
+    (hall : ∀ q ∈ e.tzpaths, SearchSkip e (stripColon s) q) (hv : e.vendored (stripColon s) = false) :
+    resolve e name = .ok .utc := by
+  have hrel : isabs (stripColon s) = false := by rcases hn with hn | hn <;> rw [hn] <;> decide
+  have hd : hasDigit (stripColon s) = false := by rcases hn with hn | hn <;> rw [hn] <;> decide
+  rw [resolve_named h h1 h2, resolve_fallthrough hrel hall, (fallback_order (stripColon s)).2.2.2.1 hv hd hn]
+
+/-- what yields `None`: an absolute path that is not a file; or a relative name found (loadable)
+under no search directory, not vendored, and either containing a digit but not a valid TZ string,
+or containing none and being neither GMT/UTC nor in `time.tzname` -/
+theorem resolve_none_iff {s : String} (h : ∃ r, resolveNamed e s = .ok r) :
+    resolveNamed e s = .ok .none ↔
+      (isabs (stripColon s) = true ∧ e.isfile (stripColon s) = false) ∨
+      (isabs (stripColon s) = false ∧ searchLoop e (stripColon s) e.tzpaths = .ok none ∧
+        fallback e (stripColon s) = .none) := by
+  obtain ⟨r, hr⟩ := h
+  simp only [resolveNamed] at hr ⊢
+  cases ha : isabs (stripColon s) <;> simp only [ha, if_true, if_false, Bool.false_eq_true] at hr ⊢
+  · cases hs : searchLoop e (stripColon s) e.tzpaths with
+    | error err => simp [hs] at hr
+    | ok o => cases o <;> simp
+  · cases hf : e.isfile (stripColon s) <;> simp only [hf, if_true, if_false, Bool.false_eq_true] at hr ⊢
+    · simp
+    · cases hl : e.load (stripColon s) <;> simp
+
+/-- FULL STATEMENT (fails on the code, D-C18-badfile): `nocache` never raises for a `str` name.
+PROVED: it raises only in two situations, both about an unreadable FILE, never about the name:
+(1) some file handed to `tzfile` raises `struct.error` (TZif magic but truncated / corrupt data: not
+in the handler list `(IOError, OSError, ValueError)`), or (2) the name is an absolute path to an
+existing file that `tzfile` rejects (that call site has no handler at all).  In every other
+environment, for every name — empty, `:`-prefixed, with spaces, `..`, of any length — a result comes back. -/
+theorem resolve_never_raises_partial (name : Option String)
+    (hS : ∀ p, e.load p ≠ .structError)
+    (hA : ∀ s, effectiveName e name = some s → isabs (stripColon s) = true → e.isfile (stripColon s) = true →
+            e.load (stripColon s) = .ok) :
+    ∃ r, resolve e name = .ok r := by
+  have hloc : ∃ r, localLoop e e.tzfiles = .ok r := by
+    cases h : localLoop e e.tzfiles with
+    | ok r => exact ⟨r, rfl⟩
+    | error err => obtain ⟨_, p, _, hp⟩ := localLoop_error h; exact absurd hp (hS p)
+  simp only [resolve]
+  cases hn : effectiveName e name with
+  | none => exact hloc
+  | some s =>
+    simp only []
+    split
+    · exact hloc
+    · simp only [resolveNamed]
+      cases ha : isabs (stripColon s)
+      · simp only [Bool.false_eq_true, if_false]
+        cases hs : searchLoop e (stripColon s) e.tzpaths with
+        | error err => obtain ⟨_, c, _, hc⟩ := searchLoop_error hs; exact absurd hc (hS c)
+        | ok o => cases o <;> exact ⟨_, rfl⟩
+      · simp only [if_true]
+        cases hf : e.isfile (stripColon s)
+        · refine ⟨.none, ?_⟩; simp
+        · simp only [if_true, hA s hn ha hf]; exact ⟨_, rfl⟩
+
+/-- the two excluded classes, in the model: an absolute path to a non-TZif file raises ValueError,
+and a truncated TZif file found on the search path raises struct.error through the handlers -/
+example :
+    let e : Env := { tzVar := none, tzfiles := [], tzpaths := ["/zi"], isfile := fun p => p == "/etc/hostname" || p == "/zi/Cut",
+                     load := fun p => if p == "/zi/Cut" then .structError else .valueError,
+                     tzname := [], vendored := fun _ => false, tzstrOk := fun _ => false }
+    resolve e (some "/etc/hostname") = .error .valueError ∧ resolve e (some "Cut") = .error .structError := by decide
+
+/-- non-vacuity of the priority theorems: `Europe/Paris` under the second directory, the first
+offering only a non-TZif file; `New York` found as `New_York`; `UTC+3` falling through to tzstr;
+`UTC` without a file giving the constant; `TZ=XYZ3QRS` making `XYZ` local; an unknown name `None` -/
+example :
+    let e : Env := { tzVar := some "Europe/Paris", tzfiles := ["/etc/localtime"], tzpaths := ["/a", "/b"],
+                     isfile := fun p => p == "/a/Europe/Paris" || p == "/b/Europe/Paris" || p == "/b/New_York",
+                     load := fun p => if p == "/a/Europe/Paris" then .valueError else .ok,
+                     tzname := ["XYZ", "QRS"], vendored := fun n => n == "Vend", tzstrOk := fun s => s == "UTC+3" }
+    resolve e none = .ok (.file "/b/Europe/Paris") ∧ resolve e (some "New York") = .ok (.file "/b/New_York") ∧
+    resolve e (some "UTC+3") = .ok (.tzstr "UTC+3") ∧ resolve e (some "UTC") = .ok .utc ∧
+    resolve e (some "XYZ") = .ok .localZone ∧ resolve e (some "Nowhere") = .ok .none ∧
+    resolve e (some "A1") = .ok .none ∧ resolve e (some "Vend") = .ok (.vendored "Vend") ∧
+    resolve e (some ":") = .ok .localZone := by decide
+
+/-- link to the factory model: `GettzFunc.__call__` stores a result in its maps exactly when a name was
+given and the resolution is neither `None` nor a tzlocal (class 0 = `Res.zone` of Model/Factory.lean,
+1 = `Res.uncached`, 2 = `Res.none`; the factory theorems hold for every assignment of classes to keys) -/
+theorem gettz_caches_exactly (name : Option String) (r : Resolution) :
+    (cacheClass name r = 0 ↔ name ≠ none ∧ r ≠ .none ∧ r ≠ .localZone) ∧
+    (cacheClass name r = 2 ↔ r = .none) := by
+  cases r <;> cases name <;> simp [cacheClass]
+
+end Resolve
 
 end C18
